@@ -13,14 +13,17 @@ Step(a, m, out) == hist' = Append(hist, [a |-> a, m |-> m, out |-> out,
 NoMsg == Msg("none", 0, Garbage, "cur")
 
 GInit == Init /\ hist = <<>>
-GNext ==
-    \/ \E m \in Msgs : Ignore(m) /\ Step("Deliver", m, "ignore")
-    \/ \E m \in Msgs : Reject(m) /\ Step("Deliver", m, "reject")
-    \/ \E m \in Msgs : Accept(m) /\ Step("Deliver", m, "accept")
-    \/ OtherSubmitted /\ Step("OtherSubmitted", NoMsg, "left")
-    \/ Timeout /\ Step("Timeout", NoMsg, "timedout")
-    \/ Complete /\ Step("Complete", NoMsg, sig')
-    \/ Submit /\ Step("Submit", NoMsg, sig)
+GIgnoreM(m) == Ignore(m) /\ Step("Deliver", m, "ignore")
+GRejectM(m) == Reject(m) /\ Step("Deliver", m, "reject")
+GAcceptM(m) == Accept(m) /\ Step("Deliver", m, "accept")
+GIgnore   == \E m \in Msgs : GIgnoreM(m)
+GReject   == \E m \in Msgs : GRejectM(m)
+GAccept   == \E m \in Msgs : GAcceptM(m)
+GOther    == OtherSubmitted /\ Step("OtherSubmitted", NoMsg, "left")
+GTimeout  == Timeout /\ Step("Timeout", NoMsg, "timedout")
+GComplete == Complete /\ Step("Complete", NoMsg, sig')
+GSubmit   == Submit /\ Step("Submit", NoMsg, sig)
+GNext == GIgnore \/ GReject \/ GAccept \/ GOther \/ GTimeout \/ GComplete \/ GSubmit
 GSpec == GInit /\ [][GNext]_gvars
 
 Terminal == phase \in {"submitted", "left", "timedout"}
